@@ -24,8 +24,8 @@ use std::rc::Rc;
 
 const RULE: &str = "four generators: names (20 hand-written rule templates - copy, swap, join, left/right/non-linear closure, symmetric, multi-conclusion, constants and repeated variables in premise/head, variable predicates, mutual recursion, rules whose own variables are called A/B or v0/v1 - x 12 goal binding shapes incl. repeated goal variable and variable predicate x 14 goal-variable namings incl. v0,v1,.. x seeded fact sets), random (1-3 safe rules, 1-2 premises, 1-2 conclusions, <=12 facts over 2-4 constants, random goal shape, goal variable names drawn from plain names, the rules' own names and v0..v6), depth (chains of length 2-13 under right/left-linear closure, marker propagation, even/odd mutual recursion and ladders of copy/swap rules, so that minimal derivation heights 0..13 occur) and filters (rules with numeric and variable-to-variable filters, also on variables that occur in the conclusion, goals open or bound in the filtered position; reported as a separate class). Every case runs the goal as drawn and with canonically renamed variables (in a third of the random cases the program is also run with facts and rules in shuffled order and the answer sets are compared). Cases whose predicted search size exceeds a fixed number of unification steps are skipped and counted. Non-trivial = the goal matches at least one model fact of derivation height >= 1 (a rule is needed); distinct by hash of (facts, rules, goal with its variable names).";
 
-/// completeness is demanded only up to this minimal derivation height (engine bound: 10)
-const DEMANDED_HEIGHT: u32 = 8;
+/// completeness is demanded up to this minimal derivation height = the engine's documented depth bound
+const DEMANDED_HEIGHT: u32 = 10;
 /// the engine's documented constant; used ONLY by the search-size predictor that filters the workload
 const ENGINE_MAX_DEPTH: usize = 10;
 
